@@ -306,7 +306,7 @@ impl Check for C12 {
     fn runs(&self, tier: Tier) -> u64 {
         match tier {
             Tier::Quick => 3_000 + 24 * 2,
-            Tier::Thorough => 600_000 + 24 * 200,
+            Tier::Thorough => 1_500_000 + 24 * 400,
         }
     }
     fn exhaustive(&self, _tier: Tier) -> bool {
@@ -316,7 +316,7 @@ impl Check for C12 {
         let mut sc = Scenario::new("C12", "v1");
         let v2_bases = match tier {
             Tier::Quick => 24 * 2,
-            Tier::Thorough => 24 * 200,
+            Tier::Thorough => 24 * 400,
         };
         let (stream, hot) = if index < v2_bases {
             // every valid control pair in turn
